@@ -71,6 +71,31 @@ func init() {
 
 func isNamed(names ...string) func(string) bool { return Is(names...) }
 
+// valuesFeeding returns the intra-procedural backward closure of v's operands
+// (through calls, phis, slices, conversions), bounded.
+func valuesFeeding(v ssa.Value, max int) []ssa.Value {
+	seen := map[ssa.Value]bool{}
+	var out []ssa.Value
+	work := []ssa.Value{v}
+	for len(work) > 0 && len(out) < max*10 {
+		x := work[len(work)-1]
+		work = work[:len(work)-1]
+		if x == nil || seen[x] {
+			continue
+		}
+		seen[x] = true
+		out = append(out, x)
+		if in, ok := x.(ssa.Instruction); ok {
+			for _, op := range in.Operands(nil) {
+				if *op != nil {
+					work = append(work, *op)
+				}
+			}
+		}
+	}
+	return out
+}
+
 func isParamOfDeadFunc(u *Unit, v ssa.Value) bool {
 	p, ok := v.(*ssa.Parameter)
 	return ok && u.DeadUnexported(p.Parent())
@@ -431,6 +456,73 @@ func runC13(c *Ctx) {
 		r.Check(len(bad) == 0 && okFields, "R-ANON-PREDICATE", name, u.Pos(fn.Pos()),
 			"branches only on auth==nil / auth.Authenticated; reads "+strings.Join(fl, ","),
 			"identity rendering in "+name+" branches on "+strings.Join(bad, "; ")+" / reads fields "+strings.Join(fl, ",")+" — the three identity functions must use the same predicate (anonymous ⇔ nil or !Authenticated) and Domain+Principal")
+	}
+
+	// R-IDENTITY-FRAMING: domain and principal are separated by a constant, and the AAD uses the kind prefix on every branch
+	sepRe := mustRe(`^\(\(auth\.Domain \+ "([^"]+)"\) \+ auth\.Principal\)$`)
+	for _, name := range []string{"callStateIdentity", "principalKeyFromAuth"} {
+		fn := u.Func(name)
+		if fn == nil {
+			continue
+		}
+		Instrs(fn, func(in ssa.Instruction) {
+			ret, ok := in.(*ssa.Return)
+			if !ok {
+				return
+			}
+			if _, isC := ret.Results[0].(*ssa.Const); isC {
+				return
+			}
+			d := u.Describe(ret.Results[0])
+			r.Check(sepRe.MatchString(d), "R-IDENTITY-FRAMING", name, u.Pos(in.Pos()), "identity = Domain + constant separator + Principal", "identity is rendered as "+d+": without a constant separator between domain and principal, different (domain, principal) pairs collide")
+		})
+	}
+	if fn := u.Func("tokenAad"); fn != nil {
+		k := 0
+		Instrs(fn, func(in ssa.Instruction) {
+			ret, ok := in.(*ssa.Return)
+			if !ok {
+				return
+			}
+			k++
+			os := u.Origins(ret.Results[0], &OriginOpts{MaxNodes: 300})
+			prefixes := 0
+			for _, o := range os {
+				if o.Kind == "const" && (strings.Contains(o.Desc, "vgi_rpc.state.") || strings.Contains(o.Desc, "vgi_rpc.call.")) {
+					prefixes++
+				}
+			}
+			usesParam := false
+			for _, v := range valuesFeeding(ret.Results[0], 40) {
+				if v == ssa.Value(fn.Params[0]) {
+					usesParam = true
+				}
+			}
+			r.Check(usesParam && prefixes >= 2, "R-IDENTITY-FRAMING", "tokenAad|return#"+itoa(k)+" uses prefix", u.Pos(in.Pos()), "AAD on this branch starts with the caller-supplied kind prefix", "this branch of tokenAad does not build the AAD from its prefix parameter: cursor and call tokens share an AAD here and become interchangeable")
+		})
+		// authenticated branch: [.., const, Domain, const, Principal]
+		var seq []string
+		Instrs(fn, func(in ssa.Instruction) {
+			if c, ok := in.(*ssa.Call); ok {
+				if b, ok := c.Call.Value.(*ssa.Builtin); ok && b.Name() == "append" && len(c.Call.Args) == 2 {
+					d := u.Describe(c.Call.Args[1])
+					switch {
+					case strings.Contains(d, "auth.Domain"):
+						seq = append(seq, "Domain")
+					case strings.Contains(d, "auth.Principal"):
+						seq = append(seq, "Principal")
+					case strings.Contains(d, "varargs"):
+						seq = append(seq, "const")
+					case d == "prefix":
+						seq = append(seq, "prefix")
+					default:
+						seq = append(seq, "other")
+					}
+				}
+			}
+		})
+		j := strings.Join(seq, ",")
+		r.Check(strings.Contains(j, "prefix,const,Domain,const,Principal"), "R-IDENTITY-FRAMING", "tokenAad|authenticated-framing", u.Pos(fn.Pos()), "prefix, tag byte, domain, separator byte, principal", "authenticated AAD is assembled as ["+j+"], expected prefix, tag, Domain, separator, Principal")
 	}
 
 	// R-CACHE-KEY
